@@ -69,13 +69,31 @@ pub fn run(ctx: &mut Ctx) {
                 st.equilibrate_min_scaling = 1e-8;
                 st.equilibrate_max_scaling = 1e8;
             }
-            let res = match problem::run(&p, &st) {
+            // a quarter of the verdicts are produced by a solver object that has already been used: a first
+            // solve cut off after one iteration leaves finite objective values and a non-infeasible status behind
+            let reused = rng.bool(0.25);
+            let attempt = if reused {
+                let mut st1 = st.clone();
+                st1.max_iter = 1;
+                problem::new_solver(&p, &st1).and_then(|mut solver| {
+                    problem::solve_observed(&mut solver)?;
+                    solver.settings.max_iter = st.max_iter;
+                    let ev = problem::solve_observed(&mut solver)?;
+                    Ok(problem::extract(&solver, ev))
+                })
+            } else {
+                problem::run(&p, &st)
+            };
+            let res = match attempt {
                 Ok(r) => r,
                 Err(msg) => {
                     ctx.inconclusive(&format!("panic: {msg}"), wl, case);
                     continue;
                 }
             };
+            if reused {
+                ctx.bump("verdicts_from_a_reused_solver_object");
+            }
             ctx.eval(1);
             ctx.bump(&format!("{wl}:status_{}", status_name(res.status)));
             let (is_p, almost) = match res.status {
